@@ -140,7 +140,11 @@ def run_case(case, rec):
         B = None
     else:
         u = fields.make_spinn(f0.spinn_module(), eq_type, D, f0.r, f0.m)
-        B = 2 if D >= 3 else 3
+        # per-axis batch sizes below, equal to and above the number of coordinates
+        hsh = case["seed"] + 7 * d + 3 * with_t + n_out + len(op)
+        B = [1, 2][hsh % 2] if D >= 3 else [1, 2, 3][hsh % 3]
+        if case["fam"] == "mono":
+            B = 2 if D >= 3 else 3
     # constant pressure network for the Navier-Stokes route
     pconst = fields.PolyField(d, 1)
     pconst.C[0, 0] = 0.7
